@@ -678,6 +678,40 @@ func scenSigMut(rep *Report, tier string, seed int64) {
 			return
 		}
 	}
+	// the schedule the binary ships with: "V4OPRUpdate indicates the activation of additional
+	// currencies and ecdsa keys" (config/activations.go) — with the shipped constants an RCD-e signed
+	// batch validates exactly from the V4 OPR update on (the scenarios above run on a compressed
+	// schedule that overwrites both constants)
+	{
+		saved := fat2.Fat2RCDEActivation
+		fat2.Fat2RCDEActivation = mainnetActs.RCDE
+		g := NewGen(seed, 3, 2)
+		for _, u := range g.Users {
+			if !u.IsE {
+				continue
+			}
+			v4 := mainnetActs.V4
+			hs := []uint32{v4 - 1, v4, v4 + 1, mainnetActs.RCDE - 1, mainnetActs.RCDE, mainnetActs.RCDE + 1, v4 - 360, v4 - 361, v4 + 360}
+			for i := 0; i < 40; i++ {
+				hs = append(hs, v4-1000+uint32(r.Intn(2000)))
+			}
+			for _, h := range hs {
+				e := g.Batch(h, u, []fat2.Transaction{Transfer(u.FA(), fat2.PTickerPEG, fat2.AddressAmountTuple{Address: g.Users[0].FA(), Amount: 5})})
+				_, err := fat2.NewTransactionBatch(e, int32(h))
+				rep.Count(fmt.Sprintf("sigmut:shipped-schedule:accepted=%v", err == nil))
+				rep.Case(fmt.Sprintf("shipped-schedule|after-v4=%v|accepted=%v", h >= v4, err == nil), true)
+				if (err == nil) != (h >= v4) {
+					path := WriteReplay(rep.Property, "sigmut-schedule", Replay{Property: rep.Property, Scenario: "sigmut", Seed: seed,
+						What:  fmt.Sprintf("with the shipped activation constants an RCD-e signed batch at height %d is accepted=%v; ecdsa keys activate with the V4 OPR update at %d", h, err == nil, v4),
+						Extra: map[string]interface{}{"height": h, "Fat2RCDEActivation": mainnetActs.RCDE, "V4OPRUpdate": v4, "entry": hx(e.Content), "error": fmt.Sprint(err)}})
+					rep.Violate("sigmut:key-type-shipped-schedule", fmt.Sprintf("height %d: RCD-e signed batch accepted=%v (Fat2RCDEActivation=%d, V4OPRUpdate=%d)", h, err == nil, mainnetActs.RCDE, v4), path)
+					break
+				}
+			}
+			break
+		}
+		fat2.Fat2RCDEActivation = saved
+	}
 	rep.Rule = "one evaluation = one block carrying a validly signed transfer plus its mutants (single-bit flips of content and of every external id, missing / duplicated / swapped signature pairs, other key, salt at and outside +-12h), per key type and activation era; exactly the original may execute; distinct = (era, mutant count bucket, executions)"
 }
 
